@@ -29,9 +29,13 @@ class FamResult:
 
 def alt_match(impl, model):
     """The model may print `a/b` where two goroutines legitimately race (documented in the model); either is accepted."""
-    if "/" not in model and "RACE:" not in model:
+    if "/" not in model and "RACE:" not in model and "failed_to_read_settings" not in model:
         return False
     rx = re.escape(model)
+    # the carrier ending while newTunnelChannel waits for the settings frame: gRPC cancels the stream's context before
+    # Recv reports the end, so the constructor's ctx.Done arm (close(ctx.Err())) races with the receive loop's
+    # close("failed to read settings"); either error is recorded
+    rx = rx.replace(re.escape("chan-finished failed_to_read_settings"), r"chan-finished (?:failed_to_read_settings|err:context_canceled)")
     # a blocked Header() races with the watcher that publishes "no headers" when the context ends
     rx = rx.replace(re.escape("other:RACE:ctx-or-nil-headers"), r"(?:ctx:canceled|ctx:deadline|md\{-\})")
     rx = re.sub(r"(\d+)((?:/\d+)+)", lambda m: "(?:" + "|".join([m.group(1)] + m.group(2).strip("/").split("/")) + ")", rx)
@@ -88,7 +92,7 @@ def ops_family(name, test_regex, files, mode="exact", nontrivial=None, classify=
         if n is not None:
             e["VERIF_N"] = str(n)
         rc, out = run_harness(ctx, test_regex, out_dir, e)
-        if rc != 0:
+        if rc != 0 and "watchdog: no progress" not in out:
             harness_failure(fr, test_regex, rc, out)
         counts = collections.Counter()
         distinct = set()
@@ -121,6 +125,12 @@ def ops_family(name, test_regex, files, mode="exact", nontrivial=None, classify=
                 im = impl[i] if i < len(impl) else "<missing>"
                 mo = model[i] if i < len(model) else "<missing>"
                 fr.evaluations += 1
+                if im.startswith("HANG"):
+                    fr.failures.append({"kind": "monitor", "key": "endpoint-hung",
+                                        "what": f"{name}: the implementation hangs on `{op[:100]}` ({im})",
+                                        "replay_lines": [f"family {name} ({test_regex}), line {i+1} of {fn}.ops",
+                                                         f"the implementation made no progress: {im}"] + scenario(i)})
+                    break
                 if im == "~":      # intermediate model action inside one implementation step: not observable
                     counts["(intermediate)"] += 1
                     continue
@@ -322,7 +332,9 @@ def _proj(prop, line):
     if prop == "C01":
         return f"D={[d for d in D if '.recv:' in d or '.decode:' in d]} F={[f for f in F if kind(f) in ('msg', 'more', 'wu')]}"
     if prop == "C02":
-        return f"F={[f for f in F if kind(f) in ('hdr', 'close')]} D={[d for d in D if '.sethdr:' in d or '.sendhdr:' in d or '.settlr:' in d or '.header:' in d or '.trailer:' in d]}"
+        # headers / close frames, metadata calls, and how every receive ended (payloads abstracted)
+        ends = [re.sub(r"(recv|decode):msg:.*", r"\1:msg", d) for d in D if '.recv:' in d or '.decode:' in d]
+        return f"F={[f for f in F if kind(f) in ('hdr', 'close')]} D={[d for d in D if '.sethdr:' in d or '.sendhdr:' in d or '.settlr:' in d or '.header:' in d or '.trailer:' in d] + ends}"
     if prop == "C06":
         return f"F={[f for f in F if kind(f) in ('msg', 'more', 'wu', 'close')]}"
     if prop == "C07":
@@ -354,7 +366,7 @@ def world_family(name, test_regex, fn, monitor_cls, prop, scenario_marker, rule,
         e["VERIF_N"] = str(n_thorough if ctx.thorough else n_quick)
         if not os.path.exists(os.path.join(out_dir, fn + ".ops")):   # several properties share one run of the world
             rc, out = run_harness(ctx, test_regex, out_dir, e)
-            if rc != 0:
+            if rc != 0 and "watchdog: no progress" not in out:
                 harness_failure(fr, test_regex, rc, out)
                 open(os.path.join(out_dir, "FAILED"), "w").write(out[-3000:])
         elif os.path.exists(os.path.join(out_dir, "FAILED")):
@@ -396,6 +408,13 @@ def world_family(name, test_regex, fn, monitor_cls, prop, scenario_marker, rule,
             mo = model[i] if i < len(model) else "<missing>"
             fr.evaluations += 1
             counts[" ".join(a for a in op.split()[:3] if "=" not in a)] += 1
+            if im.startswith("HANG"):
+                # the harness watchdog: the endpoint made no progress on this stimulus (deadlock on a mutex)
+                fr.failures.append({"kind": "monitor", "key": "endpoint-hung",
+                                    "what": f"{name}: the implementation hangs on `{op[:100]}` ({im})",
+                                    "replay_lines": [f"family {name} ({test_regex}), line {i+1} of {fn}.ops",
+                                                     f"the implementation made no progress on this stimulus: {im}"] + scenario(i)})
+                break
             # specification on the implementation's own observations
             for vprop, key, msg in mon.feed(op, im):
                 if vprop == prop:
@@ -715,7 +734,7 @@ PROPS = {
     "C06": {
         "lean_targets": ["Proofs.Props.C06"],
         "prop_files": ["Proofs/Props/C06.lean"],
-        "families": [FLOW, PUMP, SENDALL],
+        "families": [FLOW, PUMP, SENDALL, SWORLD("C06"), CWORLD("C06")],
         "side_conditions": ["Proofs.Facts.chunkMax_eq", "Proofs.Facts.window_eq", "Proofs.Facts.chunkMax_le_window", "Proofs.Facts.advertised_windows"],
         "trusted_base": ["L-atomic model TunnelModel/FlowStep.lean and the sequential receiver model Rcv in the same file",
                          "Framing.pump / Framing.sendAll as models of the two senders' chunking"],
